@@ -149,8 +149,8 @@ def gtpl(a: int, b: int, c: int, d: int, order: int) -> bool:
     return hs.run_path(_gtpl_body, (a, b, c, d, order))
 
 
-TXT_GRAMMARS = ['lines', 'nlvia', 'dotall', 'collide', 'letx', 'nulltxt', 'prefalt', 'kw', 'ign2', 'anoncollide', 'ignstart']
-TXT_K = {'ign2': 5, 'lines': 8, 'nlvia': 8, 'dotall': 7, 'collide': 5, 'letx': 9, 'nulltxt': 6, 'prefalt': 4, 'kw': 14, 'anoncollide': 5, 'ignstart': 4}
+TXT_GRAMMARS = ['lines', 'nlvia', 'dotall', 'collide', 'letx', 'nulltxt', 'prefalt', 'kw', 'ign2', 'anoncollide', 'ignstart', 'reptok', 'opttail']
+TXT_K = {'ign2': 5, 'lines': 8, 'nlvia': 8, 'dotall': 7, 'collide': 5, 'letx': 9, 'nulltxt': 6, 'prefalt': 4, 'kw': 14, 'anoncollide': 5, 'ignstart': 4, 'reptok': 3, 'opttail': 6}
 
 
 def plan(tier, seed):
